@@ -79,6 +79,31 @@ def oracle_csr(ctx, c0, c1, r0, r1):
                                                            residual=float(lhs)),
                       expected=dict(exempt_terms=rhs, tol=float(tol)), sig=dict(kind="csr", clause="parseval"))
     c0.parseval_ratio = abs(float(lhs) - rhs) / float(tol)
+    # the same with the wake loss taken as the property words it: one half of the sum OVER THE BUNCH of profile times the
+    # unscaled wake potential wakePotential() RETURNS for it (read back at bucket*spacing, divided by getWakeScaling()).
+    # (C07_generated_parseval_readback; the padded-buffer form above is blind to where the bunch was put and read.)
+    if "wake" in r0 and not dc.nonfinite(r0["wake"]) and not dc.nonfinite(r0["wscale"]):
+        n, sc = c0.n, r0["wscale"][0]
+        terms = [Fraction(c0.prof[0][x]) * r0["wake"][x] / sc for x in range(n)] if sc != 0 else None
+        if terms is None:
+            ctx.violation("impl-oracle", "getWakeScaling() is zero", case=c0.replay("csr"), sig=dict(kind="csr", clause="finite"))
+        else:
+            loss_rb = sum(terms) / 2
+            lhs_rb = r0["power"][0] / (df * dq2) - loss_rb
+            tol_rb = tol + 4 * U * sum(abs(t) for t in terms)
+            if abs(float(lhs_rb) - rhs) > float(tol_rb):
+                ctx.violation("impl-oracle", "CSR power and one half of the sum over the bunch of profile times wakePotential()/getWakeScaling() differ by more "
+                              "than the zero-frequency and top-cell terms (Parseval on the RETURNED wake; bunch in bucket %d, spacing %d cells%s)"
+                              % (c0.buckets[0], c0.s, "; the sum over the padded buffers agrees: the wake is read back somewhere else than the bunch was placed"
+                                 if abs(float(lhs) - rhs) <= float(tol) else ""),
+                              case=c0.replay("csr"), observed=dict(power_over_df_dq2=float(r0["power"][0] / (df * dq2)), half_sum_profile_times_returned_wake=float(loss_rb),
+                                                                   half_sum_over_padded_buffers=float(loss), residual=float(lhs_rb)),
+                              expected=dict(exempt_terms=rhs, tol=float(tol_rb)),
+                              sig=dict(kind="csr", clause="parseval-readback", bucket_zero=c0.buckets[0] * c0.s == 0))
+            c0.parseval_rb_ratio = abs(float(lhs_rb) - rhs) / float(tol_rb)
+            if c0.passive and loss_rb < -(tolW + 4 * U * sum(abs(t) for t in terms)):
+                ctx.violation("impl-oracle", "wake loss 1/2 sum profile*wakePotential()/getWakeScaling() negative for a passive impedance", case=c0.replay("csr"),
+                              observed=float(loss_rb), expected=dict(tol=float(tolW)), sig=dict(kind="csr", clause="loss-sign-readback"))
     # the property's scale of the check: how large the compared quantities are relative to the tolerance
     c0.parseval_scale = abs(float(loss)) / float(tol) if tol else 0.0
     # signs
@@ -112,7 +137,7 @@ def oracle_csr(ctx, c0, c1, r0, r1):
 
 def run_pairs(ctx, pairs, nmodel):
     """-> (disagreements, ratios)"""
-    r0 = dc.run_impl(ctx, "".join(c0.impl_text("csr") for c0, _ in pairs))
+    r0 = dc.run_impl(ctx, "".join(c0.impl_text("csr") for c0, _ in pairs), [c0 for c0, _ in pairs], "csr")
     for c0, c1 in pairs:
         fr = r0[c0.cid]
         fmax = float(fr["df"][1]) * float(fr["freq"][-1])
@@ -165,6 +190,8 @@ def _bunch_result(r, b, N):
     d = dict(phys=r["phys"], df=r["df"], freq=r["freq"], renorm=r["renorm"],
              spectrum=r["spectrum"][b * N:(b + 1) * N], power=[r["power"][b]],
              wakepad=r["wakepad%d" % b], padded=r["padded%d" % b])
+    if "wake%d" % b in r:
+        d["wake"], d["wscale"] = r["wake%d" % b], r["wscale%d" % b]
     return d
 
 
@@ -175,7 +202,7 @@ def run_multibunch(ctx, pairs, nmodel):
     "cutoff makes it smaller" per bunch.  Correspondence: row b / power b against the extracted model of
     bunch b alone (what C07_multibunch_spectrum_row / _power state)."""
     import copy
-    r0 = dc.run_impl(ctx, "".join(c0.impl_text("csrmb") for c0, _ in pairs))
+    r0 = dc.run_impl(ctx, "".join(c0.impl_text("csrmb") for c0, _ in pairs), [c0 for c0, _ in pairs], "csrmb")
     for c0, c1 in pairs:
         fr = r0[c0.cid]
         fmax = float(fr["df"][1]) * float(fr["freq"][-1])
@@ -266,6 +293,7 @@ def run(ctx):
     ctx.sample(pairs[0][1].describe())
     ctx.extra["correspondence_disagreements"] = len(dis)
     ctx.extra["max_parseval_residual_over_tolerance"] = max(getattr(c0, "parseval_ratio", 0.0) for c0, _ in pairs)
+    ctx.extra["max_parseval_residual_over_tolerance_returned_wake"] = max(getattr(c0, "parseval_rb_ratio", 0.0) for c0, _ in pairs)
     ctx.extra["median_wake_loss_over_tolerance"] = sorted(getattr(c0, "parseval_scale", 0.0) for c0, _ in pairs)[len(pairs) // 2]
     ctx.assumptions += ["per-bunch Parseval compares the power of bunch b with the wake loss of bunch b ALONE (fresh single-bunch object of the same "
                         "transform length and impedance): the wake of a multi-bunch train mixes the bunches and is not what the property relates the power to",
@@ -277,4 +305,38 @@ def run(ctx):
 
 
 def replay(ctx, rp):
-    run(ctx)
+    """a recorded csr / csrmb case is run again by itself (with its cutoff-off / cutoff-on partner); anything else: the whole check"""
+    c = rp.get("case") or {}
+    if c.get("kind") not in ("csr", "csrmb"):
+        return run(ctx)
+    import copy
+    fx = lambda l: [float.fromhex(v) for v in l]
+    cut = float.fromhex(c["cutoff"])
+    mk = lambda cid, cutoff: dc.DftCase(cid, c["N"], c["n"], c["spacing"], c["buckets"], fx(c["zre"]), fx(c["zim"]),
+                                        [fx(p) for p in c["prof"]], {k: float.fromhex(v) for k, v in c["axes"].items()},
+                                        {k: float.fromhex(v) for k, v in c["phys"].items()}, note=c.get("note", ""), cutoff=cutoff)
+    cid = c["id"].rstrip("abn")
+    c0, c1 = mk(cid + "a", 0.0 if cut > 0 or cut == -1.0 else cut), mk(cid + "b", cut if cut > 0 else -1.0)
+    c1.cut_frac = 0.5
+    note = c.get("note", "")
+    c0.passive = c1.passive = note.startswith("passive") or note.startswith("smooth")
+    if c.get("warm"):
+        c0.warm = c1.warm = [[fx(p) for p in profs] for profs in c["warm"]]
+    coq = vp_coq.full_check("C07", ctx, fams=("dft",))
+    if c["kind"] == "csrmb":
+        c0.pre = c1.pre = [(o["op"], [fx(p) for p in o["prof"]]) for o in c.get("pre", [])]
+        if cut > 0:
+            # keep the recorded cutoff: run_multibunch derives it from cut_frac of the frequency axis
+            r0 = dc.run_impl(ctx, c0.impl_text("csrmb"))[c0.cid]
+            fmax = float(r0["df"][1]) * float(r0["freq"][-1])
+            c1.cut_frac = cut / fmax
+        dis = run_multibunch(ctx, [(c0, c1)], 1)
+    else:
+        if cut > 0:
+            r0 = dc.run_impl(ctx, c0.impl_text("csr"))[c0.cid]
+            fmax = float(r0["df"][1]) * float(r0["freq"][-1])
+            c1.cut_frac = cut / fmax
+        dis = run_pairs(ctx, [(c0, c1)], 1)
+    ctx.rule = "replay of one recorded %s case (cutoff off and on)" % c["kind"]
+    ctx.sample(c0.describe())
+    conclude(ctx, coq, dis)
